@@ -5,10 +5,11 @@
 import Model.Driver
 import Model.Lines
 import Model.HelpersDriver
+import Model.CliDriver
 
 namespace Model
 
-def handlers : List (String → Req → Option String) := [handleCore, Lines.handle, Helpers.handle]
+def handlers : List (String → Req → Option String) := [handleCore, Lines.handle, Helpers.handle, CliDriver.handle]
 
 def handle (line : String) : String :=
   let (cmd, r) := parseReq line
